@@ -1,7 +1,7 @@
 CONSTANTS
   NW = 1
-  MaxLive = 2
-  MaxStops = 2
+  MaxLive = 1
+  MaxStops = 1
   Timeout = 2
   ForcedAwaitsWorkers = FALSE
   GracefulSkipsAwait = FALSE
@@ -9,7 +9,9 @@ CONSTANTS
   TermIsForced = FALSE
   SecondStopHangs = FALSE
   AwaitsLastWorkerOnly = FALSE
-  WakeAcceptFirst = FALSE
-SPECIFICATION FairSpec
-PROPERTIES C06_AlwaysCompletes
+  WakeAcceptFirst = TRUE
+SPECIFICATION Spec
+VIEW View
+INVARIANTS C06_GracefulWaits C06_GracefulLetsFinish C06_NoDispatchAfterCompletion C06_SignalKinds
+PROPERTIES Steps
 CHECK_DEADLOCK FALSE
